@@ -8,7 +8,7 @@
   accepted history of this layer projects onto an accepted history of layer A (`Proofs/Refine.lean`).
 
   Transcribes (after the repairs recorded in known_findings.json):
-    purescheduler.py  co_run (cancellation wrapper), _co_run 958-1085, _tidy_tasks 698-725,
+    purescheduler.py  co_run (cancellation wrapper), _co_run 992-1160, _abort_on_timeout 974-990, _tidy_tasks 698-725,
                       co_shutdown 864-912, _record_beginning / _remaining_timeout
     scheduler.py      Scheduler.co_run 114-136 (verdict conversion)
   Core Lean only.
@@ -99,7 +99,8 @@ inductive EvB
   | cancelArrive (s : Nat)
   /-- the main wait of `s` returns finished jobs -/
   | waitReturn (s : Nat)
-  /-- `co_run` of `s` reacts to them: critical failure? all regular jobs done? else start successors -/
+  /-- `co_run` of `s` reacts to them: critical failure? all regular jobs done? deadline reached? else start
+      successors -/
   | react (s : Nat)
   /-- the main wait of `s` returns nothing: its timeout elapsed -/
   | timeoutFire (s : Nat)
@@ -197,12 +198,14 @@ def finishRun (c : Cfg) (st : StB) (s : Nat) (x : Exit) (pick : Nat) : Option St
     match stepA c st.a (.finish s r) with
     | none => none
     | some a' =>
-      some { st with a := a', pcB := setAt st.pcB s .over,
-                     failT := setAt st.failT s (x == .timeout), failC := setAt st.failC s (x == .critical) }
+      -- (`_failed_timeout` was recorded when the loop was left: `exitLoop`; `_failed_critical` is assigned here)
+      some { st with a := a', pcB := setAt st.pcB s .over, failC := setAt st.failC s (x == .critical) }
 
-/-- the run of `s` leaves its main loop for reason `x`: `_tidy_tasks(pending)` cancels what is left -/
+/-- the run of `s` leaves its main loop for reason `x`: `_tidy_tasks(pending)` cancels what is left;
+    on expiry (`_abort_on_timeout`) `_failed_timeout` is recorded first, before the clean-up -/
 def exitLoop (_c : Cfg) (st : StB) (s : Nat) (x : Exit) (a' : StA) : StB :=
-  { st with a := a', pcB := setAt st.pcB s (.tidy x), deadline := setAt st.deadline s none }
+  { st with a := a', pcB := setAt st.pcB s (.tidy x), deadline := setAt st.deadline s none,
+            failT := setAt st.failT s (st.failT s || x == .timeout) }
 
 /-- layer-B bookkeeping when `co_run` of `s` begins -/
 def beginB (c : Cfg) (st : StB) (s : Nat) (a' : StA) : StB :=
@@ -282,6 +285,11 @@ def stepB (c : Cfg) (st : StB) : EvB → Option StB
           match stepA c st.a (.react s true (liveChildren c st.a s)) with
           | none => none
           | some a' => some (exitLoop c { st with nbDone := setAt st.nbDone s nb } s .success a')
+        else if expired (st.deadline s) st.a.now then
+          -- the deadline is behind us although `wait()` reported completions: `_abort_on_timeout`
+          match stepA c st.a (.react s true (liveChildren c st.a s)) with
+          | none => none
+          | some a' => some (exitLoop c { st with nbDone := setAt st.nbDone s nb } s .timeout a')
         else
           match stepA c st.a (.react s false []) with
           | none => none
